@@ -98,6 +98,12 @@ def random_case(rng, n=None, with_dev=None, target=None, allow_nan=True, degener
         elif a == 'o_many':
             rank = ['lvl_%02d' % i for i in range(30)]
             cols[a] = maybe_nan([rank[min(29, int(l * 30))] for l in latent], pn); ordinal.append(a); vo[a] = list(rank)
+    if variants and 'c_cat' in cols and rng.random() < 0.35:
+        # a category whose NAME looks like a special float / JSON literal (it is a string and must stay one through every conversion)
+        present = [v for v in dict.fromkeys(cols['c_cat']) if isinstance(v, str)]
+        if present:
+            old_name = rng.choice(present); new_name = rng.choice(['inf', 'Infinity', '-inf', 'NaN', 'null', 'None', '1e5', 'nan'])
+            cols['c_cat'] = [new_name if v == old_name else v for v in cols['c_cat']]
     if variants:
         for a in list(qualitative):
             if a == 'c_cat' and rng.random() < 0.5:
